@@ -25,7 +25,7 @@ def count_calls(func: F) -> F:
     @wraps(func)
     def wrapper(*args: Any, **kwargs: Any) -> ReturnType:
         wrapper.num_calls += 1
-        print(f"Count Calls: Call {wrapper.num_calls} of function {getattr(func, '__name__', repr(func))!r} at {datetime.now()}.")
+        print(f"Count Calls: Call {wrapper.num_calls} of function {func.__name__ if hasattr(func, '__name__') else repr(func)!r} at {datetime.now()}.")
         return func(*args, **kwargs)
 
     wrapper.num_calls = 0
